@@ -42,6 +42,22 @@ CLAIMS["C20"] = dict(
               "(LRA/NRA with NaN flags), inductive append step",
     ref="3/C20")
 
+CLAIMS["C15"] = dict(
+    text="The current text of geometry.pyx:point_in_polygon (Cython "
+         "declarations stripped, validated against the compiled extension "
+         "each run) and the real PolygonFilter.filter with all helpers of "
+         "polygon_filter.py are executed on exact-real symbolic polygons "
+         "(all shapes up to the vertex bound) and query points off the "
+         "boundary; nlsat proves on every path that the result equals an "
+         "independently formulated even-odd oracle (upward ray, no division)"
+         ", complemented when inverted, and that inputs are unmodified.",
+    note="Trusted: z3/nlsat, symx, the hand model of the 10-line "
+         "_points_in_poly wrapper. Exact reals, not IEEE doubles; vertex "
+         "count bounded; .poly text round trip not yet covered here.",
+    technique="symbolic execution of stripped .pyx + real Python wrapper, "
+              "z3 nlsat (QF_NRA) equivalence with an even-odd oracle",
+    ref="3/C15")
+
 NOT_APPLICABLE = {
 }
 
